@@ -334,6 +334,48 @@ Theorem C13_search_result_no_unrelated_pair :
 Proof. exact search_result_no_unrelated_pair. Qed.
 Print Assumptions C13_search_result_no_unrelated_pair.
 
+(** WHAT THE SECOND PHASE ENUMERATES: [flips k base] are exactly the bitmaps at Hamming
+    distance [k] from [base], so the space around a first-phase result [p1] consists of the
+    recorded bitmaps within min(DisabledEventsMaxDistance, number of recorded events) flips
+    of the first-phase one, each with the simulated bitmaps that differ from the
+    first-phase one in exactly as many entries as the balance of the amounts demands
+    ([p2_bd]) and leave equally many events on both sides *)
+Theorem C13_flips_iff :
+  forall base k x, In x (flips k base) <-> length x = length base /\ hamming x base = k.
+Proof. exact flips_iff. Qed.
+Print Assumptions C13_flips_iff.
+
+Theorem C13_phase2_space_iff :
+  forall es cs maxdist p1 e m,
+  In (e, m) (phase2_space es cs maxdist p1) <->
+    length e = length (fst p1) /\ (hamming e (fst p1) <= p2_budget es maxdist)%nat /\
+    0 <= p2_bd es cs p1 e /\
+    length m = length (snd p1) /\ hamming m (snd p1) = Z.to_nat (p2_bd es cs p1 e) /\
+    bm_balanced es cs (e, m) = true.
+Proof. exact phase2_space_iff. Qed.
+Print Assumptions C13_phase2_space_iff.
+
+(** ... and "the budget allows" as an inequality: a result that pairs two events agreeing
+    in neither type nor digest, both left enabled by the first phase, has spent the whole
+    budget -- its recorded bitmap differs from the first-phase one in at least
+    min(DisabledEventsMaxDistance, number of recorded events) positions.  With one flip to
+    spare no result contains such a pair. *)
+Theorem C13_search_result_unrelated_pair_budget :
+  forall es cs maxdist d p cs1 c cs2 es1 e es2,
+  In (d, p) (search_results es cs maxdist) ->
+  Z.of_nat (length cs + length es) * (2 * BIGN + 2) < W64 ->
+  flag (snd p) cs = cs1 ++ (false, c) :: cs2 ->
+  flag (fst p) es = es1 ++ (false, e) :: es2 ->
+  length (en cs1) = length (en es1) ->
+  unrelated c e = true ->
+  exists d1 p1,
+    In (d1, p1) (argmins (scored es cs (phase1_cands es cs))) /\
+    In p (phase2_space es cs maxdist p1) /\
+    (nth (length es1) (fst p1) true = false -> nth (length cs1) (snd p1) true = false ->
+     (p2_budget es maxdist <= hamming (fst p) (fst p1))%nat).
+Proof. exact search_result_unrelated_pair_budget. Qed.
+Print Assumptions C13_search_result_unrelated_pair_budget.
+
 (** the hypotheses are satisfiable: with DisabledEventsMaxDistance 0 the result of the
     example below does pair the replaced entry with an unrelated simulated event *)
 Example C13_unrelated_pair_hypotheses_satisfiable :
